@@ -40,9 +40,10 @@ def main():
     ap.add_argument('--props', default='all')
     ap.add_argument('--seed', default='1')
     ap.add_argument('--record', action='store_true')
+    ap.add_argument('--dir', default='seeded', help="'seeded' (changes that break a property) or 'harmless' (behaviour-preserving refactorings: every non-zero exit is an alarm)")
     a = ap.parse_args()
     boxes = a.boxes.split(',')
-    ids = sorted(os.listdir(os.path.join(V, 'seeded'))) if a.ids == 'all' else a.ids.split(',')
+    ids = sorted(os.listdir(os.path.join(V, a.dir))) if a.ids == 'all' else a.ids.split(',')
     os.makedirs(a.out, exist_ok=True)
     for b in boxes:
         prepare(b)
@@ -59,7 +60,7 @@ def main():
                 sid = q.get_nowait()
             except queue.Empty:
                 return
-            patch = os.path.join(V, 'seeded', sid, 'patch.diff')
+            patch = os.path.join(V, a.dir, sid, 'patch.diff')
             env = dict(os.environ, VERIF_REPO=os.path.join(box, 'repo'))
             r = subprocess.run([os.path.join(box, 'verif', 'tools', 'seedrun.py'), patch, '--props', a.props, '--seed', a.seed,
                                 '--out', os.path.join(a.out, sid), '--jobs', '7'], capture_output=True, text=True, env=env)
@@ -71,8 +72,14 @@ def main():
             infra = [l.split()[0] for l in lines if ' rc=2 ' in l]
             with lock:
                 print(sid, 'caught by', ','.join(caught) or '-', ('INFRA ' + ','.join(infra)) if infra else '', flush=True)
-                if a.record and m and a.props == 'all':
-                    mp = os.path.join(V, 'seeded', sid, 'meta.json')
+                if a.record and m and a.props == 'all' and a.dir == 'harmless':
+                    mp = os.path.join(V, a.dir, sid, 'meta.json')
+                    meta = json.load(open(mp))
+                    meta['alarms'] = caught + infra
+                    meta['checks_run'] = 'tools/seedrerun.py --dir harmless: patch applied in an isolated worktree (VERIF_REPO), all twenty ./check Cxx --tier quick at verif commit %s' % (commit + ('+' if dirty else ''))
+                    json.dump(meta, open(mp, 'w'), indent=1)
+                elif a.record and m and a.props == 'all':
+                    mp = os.path.join(V, a.dir, sid, 'meta.json')
                     meta = json.load(open(mp))
                     hist = meta.get('history', [])
                     entry = {'verif_commit': commit + ('+' if dirty else ''), 'caught_by': caught, 'nonzero': [l for l in lines if ' rc=0 ' not in l]}
